@@ -1399,6 +1399,228 @@ def w_range(item, seed=0):
     return t
 
 
+# ----------------------------------------------------------------------------- I. histories on real Ptychography objects
+# State can also hide in the reconstruction object and in class-level defaults: a flag computed once, a default dict handed out by reference.
+# Alphabet of public steps on a real 2-slice pure-phase Ptychography instance (checks/_ptycho.py builder): reconstruct (0/1 iterations, reset
+# False/True, constraints none / apply_fov_mask / identical_slices), `ptycho.constraints = ...`, change of the probe's mode count through
+# every public route (num_probes setter + re-attaching the model; swapping in a fresh model), clone(), building a FRESH instance. After EVERY
+# step the instance in force is judged by the operator identities: pure-phase summed predicted intensity == probe intensity (whenever no
+# field-of-view mask is requested - a dict reference model tracks the requests, reset=True restores the object defaults), fourier_projection
+# yields the measured amplitudes and is idempotent for the CURRENT mode count, patch scatter is the adjoint of patch extraction; a fresh
+# instance built after any history predicts exactly what a fresh instance built first predicts; class/module-level containers are unchanged.
+PT_PAYLOADS = {"afm": {"object": {"apply_fov_mask": True}}, "tie": {"object": {"identical_slices": True}}}
+
+
+def pt_steps():
+    st = [["recon", 0, r, p] for r in (False, True) for p in (None, "afm", "tie")]
+    st += [["recon", 1, False, None], ["recon", 1, True, "afm"]]
+    st += [["prop", "afm"], ["prop", "tie"]]
+    st += [["modes", "reattach", 2], ["modes", "fresh_model", 2], ["modes", "fresh_model", 1], ["modes", "fresh_model", 3]]
+    st += [["clone"], ["fresh"]]
+    return st
+
+
+def _pt_build(seed):
+    from checks import _ptycho
+
+    cfg = {"obj_type": "pure_phase", "slices": 2, "modes": 1, "roi": [8, 8], "scan": [2, 2], "pad": [4, 4]}
+    P = _ptycho.build(cfg, np.random.default_rng([seed, 16, 12]))
+    if P.degenerate or P.ptycho is None:
+        raise Broken("pipeline builder returned a degenerate problem")
+    return P.ptycho
+
+
+def _pt_predict(pt):
+    """Public forward chain on all patterns: (exit waves, predicted intensities, sum |probe|^2)."""
+    torch = _torch()
+    with torch.no_grad():
+        idx = np.arange(int(pt.dset.num_gpts))
+        pi, _pos, pf, dsc = pt.dset.forward(idx, pt.obj_padding_px)
+        sp = pt.probe_model.forward(pf)
+        op = pt.obj_model.forward(pi)
+        _, ov = pt.forward_operator(op, sp, dsc)
+        pred = pt.detector_model.forward(ov)
+        want = float((pt.probe_model.probe.abs() ** 2).sum())
+    return ov, pred, want
+
+
+def _pt_apply(pt, step, seed):
+    torch = _torch()
+    k = step[0]
+    if k == "recon":
+        _, n, reset, p = step
+        kw = {"num_iters": n, "reset": reset, "optimizer_params": {"object": {"type": "sgd", "lr": 0.05}, "probe": {"type": "sgd", "lr": 0.005}}}
+        if p is not None:
+            kw["constraints"] = {a: dict(b) for a, b in PT_PAYLOADS[p].items()}
+        pt.reconstruct(**kw)
+    elif k == "prop":
+        pt.constraints = {a: dict(b) for a, b in PT_PAYLOADS[step[1]].items()}
+    elif k == "modes":
+        _, route, M = step
+        if route == "reattach":  # grow the attached one-mode model through its public setters, then attach it again
+            if int(pt.probe_model.probe.shape[0]) != 1:
+                # Re-declaring the mode count of a model that already holds a multi-mode stack is not a supported route on the unchanged tree
+                # (set_initial_probe tiles the existing stack: num_probes and the stack disagree, or a RuntimeError): counted, not judged.
+                raise _RouteNotApplicable()
+            pm = pt.probe_model
+            pm.num_probes = M
+            pm.initial_probe_weights = None
+            pt.probe_model = pm
+        else:
+            from quantem.diffractive_imaging.probe_models import ProbePixelated
+
+            rng = np.random.default_rng([seed, 16, 13, M])
+            roi = tuple(int(v) for v in pt.roi_shape)
+            prb = (rng.normal(size=(M, *roi)) + 1j * rng.normal(size=(M, *roi))).astype(np.complex64)
+            pt.probe_model = ProbePixelated.from_array(prb, probe_params={"energy": 300e3}, rng=int(seed) + 61)
+    elif k == "clone":
+        return pt.clone()
+    elif k == "fresh":
+        return _pt_build(seed)
+    return pt
+
+
+class _RouteNotApplicable(Exception):
+    pass
+
+
+def _pt_expect(state, step, defaults):
+    k = step[0]
+    if k == "fresh":
+        return dict(defaults)
+    if k == "recon":
+        if step[2]:
+            state = dict(defaults)
+        if step[3] is not None:
+            state.update(PT_PAYLOADS[step[3]]["object"])
+    elif k == "prop":
+        state.update(PT_PAYLOADS[step[1]]["object"])
+    return state
+
+
+def _state_changes():
+    """Names of the module/class-level containers whose contents differ from the start-up snapshot."""
+    changed = []
+    for name, obj, copy in _STATE["containers"]:
+        try:
+            same = repr(obj) == repr(copy)
+        except Exception:
+            same = True
+        if not same:
+            changed.append(name)
+    return changed
+
+
+def run_pt_history(t, steps, seed, fresh_ref=None):
+    torch = _torch()
+    from quantem.diffractive_imaging.ptycho_utils import sum_patches
+
+    case = {"kind": "pt_history", "steps": [list(x) for x in steps]}
+    where = "Ptychography history " + " ; ".join("/".join(str(v) for v in x) for x in steps)
+    restore_module_state()
+    try:
+        pt = _pt_build(seed)
+        defaults = dict(pt.constraints["object"])
+        state = dict(defaults)
+        nbad = 0
+        for i, step in enumerate([["start"], *steps]):
+            if i > 0:
+                try:
+                    pt = _pt_apply(pt, step, seed)
+                except _RouteNotApplicable:
+                    t.extra["pt_history_reattach_on_multimode_model_not_judged"] += 1
+                    break
+                state = _pt_expect(state, step, defaults)
+            at = f"{where}: after step {i} ({'/'.join(str(v) for v in step)})"
+            M = int(pt.num_probes)
+            cls = {"last_step": step[0], "modes": M}
+            ov, pred, want = _pt_predict(pt)
+            if tuple(ov.shape[:1]) != (M,) or not bool(torch.isfinite(pred).all()):
+                t.fail({"relation": "forward_chain_shape_finite", **cls}, case, f"{at} exit waves have shape {tuple(ov.shape)} for {M} mode(s) / non-finite prediction")
+                break
+            if step[0] in ("start", "fresh") and fresh_ref is not None:
+                d = float((pred - fresh_ref).abs().max() / fresh_ref.abs().max())
+                if d > 1e-6:
+                    nbad += 1
+                    t.fail({"relation": "fresh_instance_independent_of_history", "last_step": step[0]}, case, f"{at} a freshly built instance predicts intensities that differ from those of a fresh instance built first by {d:.3g} (object constraints {({k: v for k, v in pt.constraints['object'].items() if defaults.get(k) != v})})")
+            if not state.get("apply_fov_mask") and not state.get("identical_slices"):  # both make |obj| != 1 by design (mask; mean of unit phasors)
+                e = float((pred.sum(dim=(-2, -1)) / want - 1).abs().max())
+                t.stat("pt_history_forward_energy_dev", e)
+                if e > TOL_FWD:
+                    nbad += 1
+                    t.fail({"relation": "pure_phase_conserves_intensity", "multislice": True, "mixed": M > 1, "tilted": False, "in_history": True, "last_step": step[0]}, case, f"{at} summed predicted intensity / sum |probe|^2 deviates from 1 by {e:.3g} although no field-of-view mask is requested (object constraints in force: {({k: v for k, v in pt.constraints['object'].items() if defaults.get(k) != v})})")
+            rng = np.random.default_rng([seed, 16, 14, i])
+            A = torch.tensor(rng.random(tuple(ov.shape[1:])) + 0.1, dtype=torch.float32)
+            A[:, ::2, ::3] = 0.0
+            with torch.no_grad():
+                x = ov * (1.0 / float(ov.abs().max()))
+                P = pt.fourier_projection(A, x)
+                got = torch.sqrt(pt.detector_model.forward(P))
+                P2 = pt.fourier_projection(A, P)
+            e1 = float((got - A).abs().max())
+            e2 = float((P2 - P).abs().max())
+            t.stat("pt_history_projection_dev", max(e1, e2))
+            pc = {"roi_odd_axis": False, "modes": "single" if M == 1 else "mixed", "in_history": True, "last_step": step[0]}
+            if e1 > TOL_PROJ * 5:  # exit waves of the real chain are complex64 and not unit-scaled per coefficient: observed 9e-7
+                nbad += 1
+                t.fail({"relation": "projection_yields_measured_amplitudes", **pc}, case, f"{at} with {M} probe mode(s): detector amplitude of the projected wave differs from the measured amplitude by {e1:.3g}")
+            if e2 > TOL_PROJ * 5:
+                nbad += 1
+                t.fail({"relation": "projection_idempotent", **pc}, case, f"{at} with {M} probe mode(s): projecting twice changes the wave by {e2:.3g}")
+            idx = pt.dset.patch_indices
+            shape = tuple(int(v) for v in pt.obj_model.shape[-2:])
+            xo = torch.tensor(rng.normal(size=shape) + 1j * rng.normal(size=shape))
+            y = torch.tensor(rng.normal(size=tuple(idx.shape)) + 1j * rng.normal(size=tuple(idx.shape)))
+            lhs = complex((xo.reshape(-1)[idx.long()].conj() * y).sum())
+            rhs = complex((xo.conj() * sum_patches(y, idx, shape)).sum())
+            if abs(lhs - rhs) / max(abs(lhs), 1e-30) > 1e-10:
+                nbad += 1
+                t.fail({"relation": "adjoint_inner_product", "repeated_indices": True, "in_history": True}, case, f"{at} <gather(x), y> = {lhs:.8g} but <x, sum_patches(y)> = {rhs:.8g}")
+        changed = _state_changes()
+        if changed:
+            t.fail({"relation": "class_level_state_unchanged", "container": changed[0].split(".")[-1]}, case, f"{where}: class/module-level containers changed: {changed}")
+    except Broken:
+        raise
+    except Exception as e:
+        restore_module_state()
+        t.case(key=case, nontrivial=True, outcome=["raised", type(e).__name__])
+        t.fail({"relation": "library_raises", "stage": "Ptychography history", "exception": type(e).__name__}, case, f"{where}: {type(e).__name__}: {str(e)[:200]}")
+        return
+    restore_module_state()
+    t.case(key=case, nontrivial=len(steps) > 0, outcome=[len(steps), nbad, int(pt.num_probes)])
+
+
+def w_pt_history(item, seed=0, depth=3):
+    torch = _torch()
+    t = Tally()
+    steps = pt_steps()
+    restore_module_state()
+    with library("building a Ptychography instance"):
+        fresh_ref = _pt_predict(_pt_build(seed))[1].clone()
+    if item < 0:
+        run_pt_history(t, [], seed, fresh_ref)
+        return t
+    first = steps[item]
+    run_pt_history(t, [first], seed, fresh_ref)
+    for s2 in steps:
+        run_pt_history(t, [first, s2], seed, fresh_ref)
+    if depth >= 3:
+        mids = steps[1::3] if depth == 3 else steps
+        for s2 in mids:
+            for s3 in steps:
+                run_pt_history(t, [first, s2, s3], seed, fresh_ref)
+    if depth >= 4:
+        for s2 in steps[1::3]:
+            for s3 in steps[2::5]:
+                for s4 in steps:
+                    run_pt_history(t, [first, s2, s3, s4], seed, fresh_ref)
+    t.sample({"kind": "pt_history", "first_step": first, "depth": depth}, cap=2)
+    return t
+
+
+w_pt_history = guarded(w_pt_history)
+
+
 # ----------------------------------------------------------------------------- driver
 GEOMS = ["single_interior", "raster_interior", "raster_wrap", "repeated_patch", "tight_object", "object_smaller_than_roi", "library_raster"]
 
@@ -1434,6 +1656,10 @@ def run(ctx):
         "parameter range: energies 0.5 keV..1 MeV x samplings 0.05..3 A (isotropic and anisotropic) x thicknesses 1e-3..1e5 A x tilts {0, (3,-2), (150,-80) mrad} are all inside the quantifier; unit modulus, "
         "+d/-d, chain intensity and pure-phase intensity are judged at the ordinary tolerances everywhere (the unchanged tree meets them on the whole grid, no zero or NaN anywhere); additivity depends on the "
         "float32 phase and is judged at 1e-5 + 25*eps32*phase_max (21x the measured worst), not judged where that bound exceeds 0.5 (count_range_additivity_not_judged_phase_beyond_float32)",
+        "histories on real Ptychography objects: a request for object constraints holds from the step that makes it; reconstruct(reset=True) restores the object defaults before the request of the same call; "
+        "pure-phase intensity conservation is judged whenever that reference model says neither a field-of-view mask nor slice tying is requested (both make |obj| != 1 by design: C10 known finding / mean of unit phasors); "
+        "re-declaring the mode count of a model that already holds a multi-mode stack (num_probes setter + re-attach) is not judged: on the unchanged tree num_probes and the stack then disagree or a RuntimeError is raised (counted); histories are bounded at 3 "
+        "(thorough: 4) steps of an 18-step alphabet, longer ones with reduced middle alphabets; class/module-level containers are compared with their start-up contents by repr",
         "the closed-form Fresnel kernel is compared for information only (max_fresnel_kernel_dev), kernel values are the subject of C02",
     )
 
@@ -1507,6 +1733,11 @@ def run(ctx):
     before = ctx.tally.n
     ctx.pmap(w_spelling, list(itertools.product(sp_rois, ["torch", "numpy"])), chunk=1, label="argument spellings of the shifting entry points", seed=ctx.seed, quick=q)
     ctx.coverage["spellings"] = ctx.tally.n - before
+    psteps = pt_steps()
+    ctx.coverage["alphabet"]["ptychography_histories"] = {"steps": psteps, "depth": 3 if q else 4, "middle_steps_quick": psteps[1::3], "problem": "2-slice pure-phase, starts with 1 probe mode, roi 8x8, 2x2 scan (checks/_ptycho.py)"}
+    before = ctx.tally.n
+    ctx.pmap(w_pt_history, list(range(-1, len(psteps))), chunk=1, label="histories on real Ptychography objects", seed=ctx.seed, depth=3 if q else 4)
+    ctx.coverage["ptychography_histories"] = ctx.tally.n - before
     calls = call_alphabet()
     ctx.coverage["alphabet"]["call_histories"] = {
         "calls": calls,
@@ -1534,7 +1765,10 @@ def replay(ctx, case):
     t = Tally()
     k = case["kind"]
     seed = ctx.seed
-    if k == "range":
+    if k == "pt_history":
+        fresh_ref = _pt_predict(_pt_build(seed))[1].clone()
+        run_pt_history(t, [list(x) for x in case["steps"]], seed, fresh_ref)
+    elif k == "range":
         t = w_range((case["roi"], case["energy"], case["sampling"]), seed=seed)
         keep = [f for f in t.fails if f["case"].get("tilt") == case.get("tilt")]
         t.fails = keep or t.fails
